@@ -38,6 +38,11 @@ def generate(ctx):
             continue
         yield S.file_lines(c) + ["new chm", "open i0 f.chm", "extract i0 h0 1 o1", "extract i0 h0 0 o0", "extract i0 h0 1 o1b", "close i0 h0", "destroy i0"], \
               dict(family="chm.member-at-padded-end", how="directed", salvage=0, kind="chm", zero_entry=z)
+    # directed: an uncompressed CHM member whose extent lies beyond the file length the header declares (bytes present)
+    for (label, c, j, declared) in S.chm_sec0_beyond_length(rng):
+        nm = c["meta"]["order"][0]
+        yield S.file_lines(c) + ["new chm", f"open i0 {nm}", f"extract i0 h0 {j} o{j}", "close i0 h0", "destroy i0"], \
+              dict(family="chm.sec0-beyond-length", how="directed", salvage=0, kind="chm", label=label)
     # directed: OAB size arithmetic at the 32-bit boundary - a later block whose size makes a running sum wrap
     # (block_max generous, plenty of data behind the header so that a copy loop would really run)
     for first in (64, 1):
